@@ -25,9 +25,11 @@ import (
 	"context"
 	"errors"
 	"fmt"
+	"io"
 	"math"
 	"os"
 	"sort"
+	"strings"
 	"sync"
 	"sync/atomic"
 	"testing"
@@ -88,11 +90,13 @@ var (
 		status.Error(grpccodes.ResourceExhausted, "x"), status.Error(grpccodes.FailedPrecondition, "x"),
 		status.Error(grpccodes.Aborted, "x"), status.Error(grpccodes.OutOfRange, "x"),
 		status.Error(grpccodes.Unauthenticated, "x"), errors.New("plain error"),
+		c14StatusErr{grpccodes.NotFound}, &c14StatusErr{grpccodes.ResourceExhausted},
 	}
 	c14Unacceptable = []error{
 		status.Error(grpccodes.Unavailable, "x"), status.Error(grpccodes.DeadlineExceeded, "x"),
 		status.Error(grpccodes.Internal, "x"), status.Error(grpccodes.DataLoss, "x"),
 		status.Error(grpccodes.Unimplemented, "x"),
+		c14StatusErr{grpccodes.Unavailable}, &c14StatusErr{grpccodes.Internal},
 	}
 )
 
@@ -100,7 +104,7 @@ var (
 // depend only on whether the completion is acceptable; every other field of
 // balancer.DoneInfo is a generated dimension (real gRPC reports a status returned by
 // the server with BytesSent = BytesReceived = true and usually a trailer):
-// sel%15 / sel%5 selects the error, bits 0..3 of sel select BytesSent, BytesReceived,
+// sel modulo the list length selects the error, bits 0..3 of sel select BytesSent, BytesReceived,
 // a non-empty Trailer and a ServerLoad value; sel ranges over 0..79 (lcm(5,16)).
 func c14DoneInfo(ok bool, sel int) balancer.DoneInfo {
 	if sel < 0 {
@@ -114,6 +118,73 @@ func c14DoneInfo(ok bool, sel int) balancer.DoneInfo {
 		di.ServerLoad = &struct{ CPU float64 }{0.5}
 	}
 	return di
+}
+
+// c14PickInfo: the forms of balancer.PickInfo a caller can legally hand to Pick. The
+// statement ("every pick returns one of the ready connections") does not depend on
+// the call's context or method name.
+var (
+	c14Methods = []string{"/", "", "/mock.DepositService/Deposit", "/%s/%d%!", "/\xff\x00/é", "/" + strings.Repeat("m", 4096)}
+	c14Expired = func() context.Context {
+		ctx, cancel := context.WithDeadline(context.Background(), time.Unix(0, 0))
+		cancel()
+		return ctx
+	}()
+	c14Cancelled = func() context.Context {
+		ctx, cancel := context.WithCancel(context.Background())
+		cancel()
+		return ctx
+	}()
+)
+
+// plain: only the forms that cost nothing (hot loops of the statistical rules and the
+// concurrent episodes): background, already cancelled, nil.
+func c14PickInfo(sel int, plain bool) (balancer.PickInfo, string) {
+	if sel < 0 {
+		sel = -sel
+	}
+	pi := balancer.PickInfo{FullMethodName: c14Methods[(sel/7)%len(c14Methods)]}
+	form := "ctx-background"
+	kind := sel % 7
+	if plain && kind != 1 && kind != 4 {
+		kind = 0
+	}
+	switch kind {
+	case 1:
+		pi.Ctx, form = c14Cancelled, "ctx-cancelled"
+	case 2:
+		pi.Ctx, form = c14Expired, "ctx-expired"
+	case 3:
+		if (sel/7)%4 != 0 { // a live timer per pick is expensive: one expiring context in four
+			pi.Ctx = context.Background()
+			break
+		}
+		ctx, cancel := context.WithTimeout(context.Background(), time.Millisecond) // expires while the call is in flight
+		_ = cancel
+		pi.Ctx, form = ctx, "ctx-expiring"
+	case 4:
+		form = "ctx-nil"
+	case 5:
+		pi.Ctx, form = metadata.AppendToOutgoingContext(context.Background(), "k", "v"), "ctx-with-metadata"
+	default:
+		pi.Ctx = context.Background()
+	}
+	return pi, form
+}
+
+// c14StatusErr: an error type of the caller's own that carries a gRPC status.
+type c14StatusErr struct{ c grpccodes.Code }
+
+func (e c14StatusErr) Error() string              { return "custom: " + e.c.String() }
+func (e c14StatusErr) GRPCStatus() *status.Status { return status.New(e.c, "custom") }
+
+// c14Unspecified: error values whose acceptability the statement leaves open (a wrapped
+// status error, std sentinels): completions reporting them are judged for range,
+// inflight and lag only.
+var c14Unspecified = []error{
+	fmt.Errorf("wrapped: %w", status.Error(grpccodes.Unavailable, "x")),
+	fmt.Errorf("wrapped: %w", status.Error(grpccodes.NotFound, "x")),
+	context.DeadlineExceeded, context.Canceled, io.EOF, io.ErrUnexpectedEOF,
 }
 
 func c14Err(ok bool, sel int) error {
@@ -215,6 +286,7 @@ type c14Sim struct {
 	classes   map[string]bool
 	idx       int // number of the picker inside its world
 	trackGaps bool
+	plain     bool // hot loops: cheap PickInfo forms only, no unspecified error values
 	noScore   bool // preference / starvation rules: the score rules are judged by the history rule only
 }
 
@@ -351,13 +423,24 @@ func (s *c14Sim) checkLag(i int, what string) {
 		g := s.gid[i]
 		lo, hi, tol = s.w.minLat[g], s.w.maxLat[g], s.w.nDone[g]
 	}
-	if lag < lo-tol || lag > hi || lag < 0 {
+	ftol := hi >> 48 // float64 rounding of estimates beyond 2^48 ns (3 days)
+	if lag < lo-tol-ftol || lag > hi+ftol || lag < 0 {
 		s.violation("lag-bounds", i, "%s: lag=%d outside observed latencies [%d,%d] (tolerance %d ns)", what, lag, lo, hi, tol)
 	}
 }
 
 // observe records a completion that is about to be reported (harness side).
 func (s *c14Sim) observe(i int, lat, now int64, ok bool) {
+	kind := 0
+	if ok {
+		kind = 1
+	}
+	s.observeKind(i, lat, now, kind)
+}
+
+// observeKind: kind 0 unacceptable, 1 acceptable, 2 unspecified (latency only).
+func (s *c14Sim) observeKind(i int, lat, now int64, kind int) {
+	ok := kind == 1
 	if w := s.w; w != nil {
 		g := s.gid[i]
 		if w.nDone[g] == 0 || lat < w.minLat[g] {
@@ -375,6 +458,9 @@ func (s *c14Sim) observe(i int, lat, now int64, ok bool) {
 		s.maxLat[i] = lat
 	}
 	s.nDone[i]++
+	if kind == 2 {
+		return
+	}
 	if ok {
 		s.hadOK[i] = true
 		if s.okMin[i] < 0 || now < s.okMin[i] {
@@ -394,7 +480,7 @@ func (s *c14Sim) observe(i int, lat, now int64, ok bool) {
 }
 
 func (s *c14Sim) decide(i int, now int64, okSel bool) bool {
-	c := s.conns[i]
+	c := s.conns[i%len(s.conns)]
 	switch c.Mode {
 	case "ok":
 		return true
@@ -410,7 +496,9 @@ func (s *c14Sim) decide(i int, now int64, okSel bool) bool {
 
 // pick performs one Pick and schedules its completion lat(conn) later.
 func (s *c14Sim) pick(j int, okSel bool, sel int) int {
-	res, err := s.picker.Pick(balancer.PickInfo{FullMethodName: "/", Ctx: context.Background()})
+	pi, form := c14PickInfo(sel, s.plain)
+	s.classes[form] = true
+	res, err := s.picker.Pick(pi)
 	now := s.now()
 	if err != nil {
 		s.violation("membership", -1, "Pick failed with %v although %d connections are ready", err, s.n)
@@ -435,7 +523,7 @@ func (s *c14Sim) pick(j int, okSel bool, sel int) int {
 		}
 		s.lastPick[i] = now
 	}
-	lat := s.conns[i].Lat * int64(j) / 8
+	lat := s.conns[i%len(s.conns)].Lat * int64(j) / 8
 	s.seq++
 	heap.Push(&s.pend, c14Pend{due: now + lat, seq: s.seq, conn: i, start: now, okSel: okSel, sel: sel, done: res.Done})
 	return i
@@ -450,8 +538,26 @@ func (s *c14Sim) complete(ev c14Pend) {
 	if s.lastDone[i] >= 0 {
 		td = now - s.lastDone[i]
 	}
-	s.observe(i, now-ev.start, now, ok)
+	unspec := !s.plain && s.conns[i%len(s.conns)].Mode == "mixed" && ev.sel%20 == 19
 	di := c14DoneInfo(ok, ev.sel)
+	if unspec {
+		di.Err = c14Unspecified[(ev.sel/20)%len(c14Unspecified)]
+		s.classes["unspecified-error-value"] = true
+		s.observeKind(i, now-ev.start, now, 2)
+		ev.done(di)
+		atomic.AddInt64(&s.dones[i], 1)
+		if s.w != nil {
+			s.w.dones[s.gid[i]]++
+		}
+		s.lastDone[i] = now
+		if sc := s.score(i); sc > c14ScoreMax {
+			s.violation("score-range", i, "completion with error %v: success %d -> %d outside [0,1000]", di.Err, before, sc)
+		}
+		s.badK[i], s.okK[i] = 0, 0
+		s.checkLag(i, "completion with an unspecified error value")
+		return
+	}
+	s.observe(i, now-ev.start, now, ok)
 	if !ok && di.BytesReceived {
 		s.classes["failure-with-bytes-received"] = true
 	}
@@ -567,7 +673,8 @@ func (s *c14Sim) par(o c14Op) {
 		go func(g int) {
 			defer wg.Done()
 			for m := 0; m < o.M; m++ {
-				res, err := s.picker.Pick(balancer.PickInfo{FullMethodName: "/", Ctx: context.Background()})
+				pi, _ := c14PickInfo(o.C+g+4*m, true)
+				res, err := s.picker.Pick(pi)
 				if err != nil {
 					bad.Store(fmt.Sprintf("Pick failed with %v", err))
 					return
@@ -579,7 +686,7 @@ func (s *c14Sim) par(o c14Op) {
 				}
 				atomic.AddInt64(&s.picks[i], 1)
 				start := s.now()
-				if lat := s.conns[i].Lat * int64(o.J) / 8; lat > 0 {
+				if lat := s.conns[i%len(s.conns)].Lat * int64(o.J) / 8; lat > 0 {
 					time.Sleep(time.Duration(lat))
 				}
 				now := s.now()
@@ -640,6 +747,12 @@ func c14History(t *testing.T, c c14Case) (v kit.Verdict) {
 				s.advance(0)
 			case "adv":
 				s.advance(o.D)
+				switch {
+				case o.D >= c14Hour:
+					s.classes["adv-huge"] = true
+				case o.D >= c14Sec-1 && o.D <= 60*c14Sec+1 && (o.D+1)%c14Sec <= 2:
+					s.classes["adv-constant+-1ns"] = true
+				}
 			case "burst":
 				for m := 0; m < o.M && s.fail == ""; m++ {
 					s.pick(o.J, (m+o.C)%3 != 0 == o.B, o.C+m)
@@ -683,6 +796,11 @@ func c14History(t *testing.T, c c14Case) (v kit.Verdict) {
 		s.classes["n=1"] = true
 	case c.N == 2:
 		s.classes["n=2"] = true
+	case c.N > 6:
+		s.classes["n>=7"] = true
+		if c.N >= 100 {
+			s.classes["n>=100"] = true
+		}
 	default:
 		s.classes["n>=3"] = true
 	}
@@ -697,13 +815,45 @@ func c14History(t *testing.T, c c14Case) (v kit.Verdict) {
 }
 
 var (
-	c14Lats  = []int64{1000, 100_000, 1_000_000, 10_000_000, 100_000_000, c14Sec, 30 * c14Sec}
+	c14Lats  = []int64{1000, 100_000, 1_000_000, 10_000_000, 100_000_000, c14Sec, 30 * c14Sec, 3600 * c14Sec, 30 * 86400 * c14Sec}
 	c14Modes = []string{"ok", "fail", "mixed", "mixed", "recover", "degrade"}
 	c14Units = []int64{1, 1000, 1_000_000, 10_000_000, 100_000_000, c14Sec, c14Sec, 7 * c14Sec, 60 * c14Sec}
 	c14Gaps  = []int64{100_000, 1_000_000, 10_000_000, 100_000_000, 500_000_000, c14Sec, 2 * c14Sec, 3 * c14Sec}
 )
 
+// c14Exact: the code's own constants (force-pick 1 s, decay 10 s, log interval 1 min) +-1 ns.
+var c14Exact = []int64{c14Sec - 1, c14Sec, c14Sec + 1, 10*c14Sec - 1, 10 * c14Sec, 10*c14Sec + 1, 60*c14Sec - 1, 60 * c14Sec, 60*c14Sec + 1}
+
+const (
+	c14Hour    = 3600 * c14Sec
+	c14Month   = 30 * 86400 * c14Sec
+	c14Century = 36525 * 86400 * c14Sec
+)
+
+// c14GenAdv draws an advance: unit x 1..9, one of the code's constants +-1 ns, or a
+// huge gap (1 h, 30 days; 100 years at most once per case so that the virtual clock
+// stays inside time.Duration).
+func c14GenAdv(rt *rapid.T, century *bool) (int64, string) {
+	switch rapid.IntRange(0, 19).Draw(rt, "advkind") {
+	case 0, 1:
+		return rapid.SampledFrom(c14Exact).Draw(rt, "exact"), "adv-constant+-1ns"
+	case 2:
+		d := rapid.SampledFrom([]int64{c14Hour, c14Month, c14Century}).Draw(rt, "huge")
+		if d == c14Century {
+			if *century {
+				d = c14Month
+			}
+			*century = true
+		}
+		return d, "adv-huge"
+	}
+	return rapid.SampledFrom(c14Units).Draw(rt, "unit") * int64(rapid.IntRange(1, 9).Draw(rt, "mul")), ""
+}
+
 func c14GenConns(rt *rapid.T, n int) []c14Conn {
+	if n > 8 { // larger pickers reuse 8 behaviours by position modulo 8
+		n = 8
+	}
 	conns := make([]c14Conn, n)
 	for i := range conns {
 		conns[i] = c14Conn{
@@ -719,11 +869,16 @@ func c14GenConns(rt *rapid.T, n int) []c14Conn {
 
 func c14Gen(rt *rapid.T) c14Case {
 	c := c14Case{
-		N:   rapid.SampledFrom([]int{1, 2, 2, 3, 3, 4, 5, 6}).Draw(rt, "n"),
+		N:   rapid.SampledFrom([]int{1, 2, 2, 3, 3, 4, 5, 6, 1, 2, 2, 3, 3, 4, 5, 6, 1, 2, 2, 3, 3, 4, 5, 6, 1, 2, 2, 3, 3, 4, 5, 6, 7, 16, 100, 127, 128, 129, 255, 256, 257, 1000}).Draw(rt, "n"),
 		Pre: rapid.Int64Range(0, c14Sec).Draw(rt, "pre"),
 	}
 	c.Conns = c14GenConns(rt, c.N)
-	nops := rapid.IntRange(1, 120).Draw(rt, "nops")
+	maxOps := 120
+	if c.N > 16 {
+		maxOps = 40
+	}
+	nops := rapid.IntRange(1, maxOps).Draw(rt, "nops")
+	century := false
 	for i := 0; i < nops; i++ {
 		k := rapid.SampledFrom([]string{"pick", "pick", "pick", "pick", "adv", "adv", "adv", "burst", "burst", "par"}).Draw(rt, "k")
 		o := c14Op{K: k}
@@ -733,7 +888,7 @@ func c14Gen(rt *rapid.T) c14Case {
 			o.C = rapid.IntRange(0, 79).Draw(rt, "c")
 			o.B = rapid.Bool().Draw(rt, "b")
 		case "adv":
-			o.D = rapid.SampledFrom(c14Units).Draw(rt, "unit") * int64(rapid.IntRange(1, 9).Draw(rt, "mul"))
+			o.D, _ = c14GenAdv(rt, &century)
 		case "burst":
 			o.J = rapid.IntRange(0, 16).Draw(rt, "j")
 			o.C = rapid.IntRange(0, 79).Draw(rt, "c")
@@ -786,7 +941,7 @@ func TestVerif_C14_concurrent(t *testing.T) {
 }
 
 func TestVerif_C14_history(t *testing.T) {
-	kit.Run(t, "C14", "history", kit.Opts{Quick: 4000, Thorough: 128000}, c14Gen,
+	kit.Run(t, "C14", "history", kit.Opts{Quick: 3000, Thorough: 96000}, c14Gen,
 		func(c c14Case) kit.Verdict { return c14History(t, c) })
 }
 
@@ -818,7 +973,7 @@ func c14Preference(t *testing.T, c c14PrefCase) (v kit.Verdict) {
 		if s.fail != "" {
 			return
 		}
-		s.noScore = true
+		s.noScore, s.plain = true, true
 		step := func() int {
 			i := s.pick(8, true, c.HC)
 			if i == c.U && len(s.pend) == 1 {
@@ -992,7 +1147,7 @@ func c14Starvation(t *testing.T, c c14StarveCase) (v kit.Verdict) {
 		if s.fail != "" {
 			return
 		}
-		s.trackGaps, s.noScore = true, true
+		s.trackGaps, s.noScore, s.plain = true, true, true
 		steps := int(c.Dur / c.Delta)
 		for k := 0; k < steps && s.fail == ""; k++ {
 			s.pick(8, (k+c.C)%3 != 0, c.C+k)
@@ -1133,6 +1288,7 @@ func c14FastFail(t *testing.T, c c14FastCase) (v kit.Verdict) {
 		if s.fail != "" {
 			return
 		}
+		s.plain = true
 		need := c14FastNeed(c.Delta)
 		fails := 2*need + c.Extra
 		recs := 0
@@ -1248,7 +1404,7 @@ func c14FastGen(rt *rapid.T) c14FastCase {
 }
 
 func TestVerif_C14_fastfail(t *testing.T) {
-	kit.Run(t, "C14", "fastfail", kit.Opts{Quick: 40, Thorough: 1600}, c14FastGen,
+	kit.Run(t, "C14", "fastfail", kit.Opts{Quick: 40, Thorough: 800}, c14FastGen,
 		func(c c14FastCase) kit.Verdict { return c14FastFail(t, c) })
 }
 
@@ -1273,7 +1429,7 @@ type c14World struct {
 }
 
 type c14RbOp struct {
-	K   string `json:"k"`             // build pick adv burst
+	K   string `json:"k"`             // build pick adv burst churn
 	Set []int  `json:"set,omitempty"` // build: ids of the ready SubConns (empty: nothing ready)
 	P   int    `json:"p,omitempty"`   // pick/burst: which of the three newest pickers (0 = newest)
 	J   int    `json:"j,omitempty"`
@@ -1351,7 +1507,11 @@ func c14Rebuild(t *testing.T, c c14RbCase) (v kit.Verdict) {
 			switch o.K {
 			case "build":
 				if len(o.Set) == 0 {
-					builder.Build(base.PickerBuildInfo{ReadySCs: map[balancer.SubConn]base.SubConnInfo{}})
+					if o.B {
+						builder.Build(base.PickerBuildInfo{}) // nil map
+					} else {
+						builder.Build(base.PickerBuildInfo{ReadySCs: map[balancer.SubConn]base.SubConnInfo{}})
+					}
 					classes["build-empty"] = true
 					prevSet = nil
 					break
@@ -1420,6 +1580,46 @@ func c14Rebuild(t *testing.T, c c14RbCase) (v kit.Verdict) {
 				}
 			case "adv":
 				w.advance(o.D)
+				if o.D >= c14Hour {
+					classes["adv-huge"] = true
+				}
+			case "churn":
+				// a long-lived builder: o.M rebuilds alternating between the generated set
+				// and the previous one; every 256th picker is kept, picked through once
+				// (the call stays outstanding across the following rebuilds) and judged
+				// like any other picker, the others are dropped unused as gRPC would.
+				sets := [][]int{o.Set, prevSet}
+				if len(prevSet) == 0 {
+					sets[1] = o.Set
+				}
+				for b := 0; b < o.M && !w.failed(); b++ {
+					set := sets[b%2]
+					scs := make([]*c14SubConn, len(set))
+					for i, id := range set {
+						scs[i] = pool[id]
+					}
+					if b%256 != 255 && b != o.M-1 {
+						ready := make(map[balancer.SubConn]base.SubConnInfo, len(scs))
+						for _, sc := range scs {
+							ready[sc] = base.SubConnInfo{}
+						}
+						builder.Build(base.PickerBuildInfo{ReadySCs: ready})
+						continue
+					}
+					s := c14NewSimOn(builder, scs, c.Conns)
+					s.base, s.w, s.idx = w.base, w, len(w.sims)
+					w.sims = append(w.sims, s)
+					s.pick(o.J, o.B, o.C+b)
+					w.advance(o.D)
+					prevSet = set
+				}
+				classes["builder-churn"] = true
+				if o.M >= 1000 {
+					classes["builder-churn>=1000"] = true
+				}
+			}
+			if w.failed() { // report the violation that happened, not its knock-on effects
+				return
 			}
 			check(what)
 		}
@@ -1431,13 +1631,25 @@ func c14Rebuild(t *testing.T, c c14RbCase) (v kit.Verdict) {
 			if !more {
 				break
 			}
-			w.advance(10 * 60 * c14Sec)
+			far := int64(0)
+			for _, s := range w.sims {
+				for _, ev := range s.pend {
+					if ev.due > far {
+						far = ev.due
+					}
+				}
+			}
+			w.advance(far - int64(time.Since(w.base)) + 1)
+		}
+		if w.failed() {
+			return
 		}
 		check("after the last completion")
 		for _, s := range w.sims {
 			for i, cn := range s.recs {
 				if inf := atomic.LoadInt64(&cn.inflight); inf != 0 && s.fail == "" {
-					s.violation("inflight", i, "picker #%d: every call of every picker completed but inflight=%d", s.idx, inf)
+					s.violation("inflight", i, "picker #%d: every call of every picker completed but inflight=%d (picks through this picker %d, completions %d; over all pickers %d / %d)",
+						s.idx, inf, s.picks[i], s.dones[i], w.picks[s.gid[i]], w.dones[s.gid[i]])
 				}
 			}
 		}
@@ -1521,12 +1733,32 @@ func c14RbGen(rt *rapid.T) c14RbCase {
 	}
 	c.Ops = append(c.Ops, build())
 	n := rapid.IntRange(2, 80).Draw(rt, "nops")
+	churns := 0
+	withChurn := rapid.IntRange(0, 7).Draw(rt, "withchurn") == 0
+	century := false
 	for i := 0; i < n; i++ {
 		k := rapid.SampledFrom([]string{"pick", "pick", "pick", "pick", "adv", "adv", "burst", "build", "build"}).Draw(rt, "k")
+		if withChurn && churns < 1 && rapid.IntRange(0, 9).Draw(rt, "churn") == 0 {
+			k = "churn"
+			churns++
+		}
 		o := c14RbOp{K: k}
 		switch k {
 		case "build":
 			o = build()
+			o.B = rapid.Bool().Draw(rt, "nilmap")
+		case "churn":
+			o = build()
+			if len(o.Set) == 0 {
+				o.Set = []int{0}
+				prev = o.Set
+			}
+			o.K = "churn"
+			o.M = rapid.SampledFrom([]int{100, 1000, 1025, 4097}).Draw(rt, "builds")
+			o.J = rapid.IntRange(1, 32).Draw(rt, "j")
+			o.C = rapid.IntRange(0, 79).Draw(rt, "c")
+			o.B = rapid.Bool().Draw(rt, "b")
+			o.D = rapid.SampledFrom([]int64{0, 1000, 1_000_000}).Draw(rt, "gap")
 		case "pick", "burst":
 			o.P = rapid.SampledFrom([]int{0, 0, 0, 1, 2}).Draw(rt, "p")
 			o.J = rapid.IntRange(0, 32).Draw(rt, "j")
@@ -1537,7 +1769,7 @@ func c14RbGen(rt *rapid.T) c14RbCase {
 				o.M = rapid.IntRange(2, 12).Draw(rt, "m")
 			}
 		case "adv":
-			o.D = rapid.SampledFrom(c14Units).Draw(rt, "unit") * int64(rapid.IntRange(1, 9).Draw(rt, "mul"))
+			o.D, _ = c14GenAdv(rt, &century)
 		}
 		c.Ops = append(c.Ops, o)
 	}
@@ -1545,6 +1777,6 @@ func c14RbGen(rt *rapid.T) c14RbCase {
 }
 
 func TestVerif_C14_rebuild(t *testing.T) {
-	kit.Run(t, "C14", "rebuild", kit.Opts{Quick: 1500, Thorough: 48000}, c14RbGen,
+	kit.Run(t, "C14", "rebuild", kit.Opts{Quick: 1000, Thorough: 24000}, c14RbGen,
 		func(c c14RbCase) kit.Verdict { return c14Rebuild(t, c) })
 }
